@@ -522,6 +522,11 @@ func sites() []site {
 			return inner.run(v)
 		}})
 	}
+	// templates through the request path (logql_transpiler_v2.Plan): after `| json` (no parameters: decoded in Go) the
+	// label_format / line_format stages run in process, so the template must not reach any statement (the statement
+	// is the one for the marker)
+	s = append(s, logqlSite("logql.labelformat.tmpl", `{a="b"} | json | label_format x=%s`, no))
+	s = append(s, logqlSite("logql.lineformat.tmpl", `{a="b"} | json | line_format %s`, no))
 	s = append(s, logqlSite("logql.sel.direct", `{a=%s} | json x="y"`, logqlOpt{direct: true}))
 	// identifiers
 	s = append(s, logqlIdentSite("logql.ident.sel", `{%s="b"}`, func(x *logql_parser.LogQLScript) string {
